@@ -229,7 +229,7 @@ func TestVfC07Cache(t *testing.T) {
 			case "udp":
 				as := NewAsker(P.ip, a.client.addr.String())
 				defer as.Close()
-				res := as.Ask("udp", q, 3*time.Second, 0)
+				res := as.AskPatient("udp", q, 3*time.Second)
 				if len(res.Resps) == 0 {
 					res = as.Ask("udp", q, 3*time.Second, 0)
 				}
@@ -241,7 +241,7 @@ func TestVfC07Cache(t *testing.T) {
 				as := NewAsker(P.ip, "")
 				defer as.Close()
 				as.Header = map[string]string{"X-Client": a.client.addr.String()}
-				res := as.Ask("http", q, 3*time.Second, 0)
+				res := as.AskPatient("http", q, 3*time.Second)
 				if res.Err != nil || len(res.Resps) != 1 {
 					return nil, fmt.Errorf("err=%v status=%d", res.Err, res.Status)
 				}
